@@ -490,6 +490,12 @@ def run(ctx):
     vplib.gen_consts(ctx)
     proofs_ok, detail = vplib.check_proofs(ctx)
     ctx.log("proofs:", proofs_ok, detail[:300])
+    if proofs_ok and not ctx.quick:
+        ok, out = vplib.coqchk(ctx)
+        ctx.log("coqchk:", ok)
+        ctx.coverage["coqchk"] = ok
+        if not ok:
+            proofs_ok, detail = False, "coqchk rejected Props/C17: " + out[-800:]
     binary = build_setup_binary(ctx)
     rng = ctx.rng
     with_model = proofs_ok
